@@ -26,3 +26,26 @@ Fixpoint hb_go (l : list Byte.byte) : bytes :=
   | _ => []
   end.
 Definition hb (h : hexlit) : bytes := match h with HexLit l => hb_go l end.
+
+(** Word literals: 7 bytes per primitive integer, big-endian, the last word right-aligned;
+    [wb len words].  One constructor per 7 bytes: an order of magnitude cheaper to read than
+    the character literals above. *)
+From Coq Require Import Uint63 ZArith.
+Definition byteN (x : int) : N := Z.to_N (Uint63.to_Z x).
+Fixpoint push (k : nat) (sh : int) (w : int) (acc : bytes) : bytes :=
+  match k with
+  | O => acc
+  | S k' => push k' (sh - 8)%uint63 w (byteN ((w >> sh) land 255)%uint63 :: acc)
+  end.
+Fixpoint wb_go (len : N) (ws : list int) (acc : bytes) : bytes :=
+  match ws with
+  | [] => acc
+  | w :: r =>
+      if len <=? 7 then push (N.to_nat len) (Uint63.of_Z (8 * (Z.of_N len - 1))) w acc
+      else wb_go (len - 7) r (push 7 48%uint63 w acc)
+  end.
+Definition wb (len : N) (ws : list int) : bytes := rev' (wb_go len ws []).
+Arguments wb len%N ws%uint63.
+
+Example wb_example : wb 9 [283686952306183; 2057]%uint63 = [1; 2; 3; 4; 5; 6; 7; 8; 9].
+Proof. vm_compute. reflexivity. Qed.
